@@ -34,6 +34,102 @@ KERNELS = [
 ]
 
 
+def decision_table(ctx, prog, flows, effects, add_edge, helper, hcalls, repl):
+    import pathsens
+
+    fl = flows.of(add_edge)
+    hf = flows.of(helper)
+    # parameter roles of the helper, from the provenance of the arguments at its call sites
+    roles = {}
+    for t in hcalls:
+        for i, a in enumerate(t.args):
+            if a.place is None or a.place.ty != "bool":
+                continue
+            sl = flows.slice(add_edge.path, fl._op_reads(a), up=False, down=False, data_only=True)
+            fields = {".".join(f for f in n[2] if f != "*") for (bp, n) in sl if n[0] == "SRC"}
+            calls = set()
+            consts = set()
+            for (bp, n) in sl:
+                if n[0] == "CALL":
+                    tt = add_edge.blocks[n[1]].term
+                    if tt.callee:
+                        calls.add(tt.callee.short.split("::")[-1])
+                        if tt.callee.short.endswith("PartialEq::eq"):
+                            for x in tt.args:
+                                d = panic.norm(fl.describe(x, depth=8))
+                                if d[0] == "const":
+                                    consts.add(d[1].split("::")[-1])
+            role = None
+            if "get_edge_by_indexes" in calls:
+                role = "exists"
+            elif any(f.endswith("specs.multi_edges") for f in fields):
+                role = "multi"
+            elif any(f.endswith("specs.edge_dedupe_strategy") for f in fields) and "KeepLast" in consts:
+                role = "keep_last"
+            elif any(f.endswith("specs.edge_dedupe_strategy") for f in fields) and "KeepFirst" in consts:
+                role = "keep_first"
+            if role:
+                roles.setdefault(i, set()).add(role)
+    pn = helper.param_names()
+    by_role = {}
+    for i, rs in roles.items():
+        if len(rs) == 1 and i < len(pn):
+            by_role[next(iter(rs))] = pn[i]
+    need = {"exists", "multi"}
+    if not need <= set(by_role) or not ({"keep_last", "keep_first"} & set(by_role)):
+        ctx.violation("R-C03-6", "roles", "the helper that updates the traversal cache does not receive (pair exists, multi_edges, KeepLast/KeepFirst test) from add_edge: got %s -- the cache cannot follow the dedupe policy" % sorted(by_role), loc_str(helper.span))
+        return
+    marks = {}
+    for s in repl:
+        marks.setdefault(s.bb, set()).add("REPLACE")
+    for t in helper.calls():
+        if t.callee and t.callee.short.endswith("Vec::push"):
+            marks.setdefault(t.bb, set()).add("PUSH")
+    ex = pathsens.Explorer(helper, hf, prog, markers=marks)
+    outs = ex.run()
+    if ex.truncated or not outs:
+        ctx.undecided("R-C03-6", "table", "state space too large / no exits")
+        return
+    cmp_keys = sorted({k for (bb, f, m) in outs for (k, v) in f if isinstance(k, str) and k[:3] in ("Lt(", "Gt(", "Le(", "Ge(") and "weight" in k})
+    E, M = by_role["exists"], by_role["multi"]
+    K = by_role.get("keep_last") or by_role.get("keep_first")
+    k_is_last = "keep_last" in by_role
+    universe = {E: [False, True], M: [False, True], K: [False, True]}
+    for ck in cmp_keys:
+        universe[ck] = [False, True]
+    # observed table: total valuation -> marker set
+    table = {}
+    bad = []
+    for (bb, f, m) in outs:
+        m = frozenset(x for x in m if x in ("REPLACE", "PUSH"))
+        for comp in pathsens.completions(f, universe):
+            key = tuple(sorted(comp.items(), key=str))
+            if key in table and table[key] != m:
+                bad.append("non-deterministic outcome for %s" % dict(key))
+            table[key] = m
+    ctx.counters["cache_update_table_rows"] = len(table)
+    # which polarity of the comparison replaces (decided separately by R-C03-5)
+    problems = []
+    for key, m in table.items():
+        v = dict(key)
+        if not v[E]:
+            want = {frozenset({"PUSH"})}
+        elif v[M]:
+            want = None  # depends on the comparison: checked below
+        else:
+            keep_last = v[K] if k_is_last else (not v[K])
+            want = {frozenset({"REPLACE"})} if keep_last else {frozenset()}
+        if want is not None and m not in want:
+            problems.append("pair_exists=%s multi_edges=%s %s=%s -> %s (expected %s)" % (v[E], v[M], K, v[K], sorted(m), sorted(next(iter(want)))))
+    # multi-edge rows: REPLACE for exactly one value of the weight comparison, independent of the dedupe flag
+    for kv in (False, True):
+        rows = {dict(k)[cmp_keys[0]] if cmp_keys else None: m for k, m in table.items() if dict(k)[E] and dict(k)[M] and dict(k)[K] == kv}
+        if not cmp_keys or set(rows.values()) != {frozenset({"REPLACE"}), frozenset()}:
+            problems.append("on a multi-edge graph (%s=%s) the cached weight is replaced %s instead of exactly when the new weight is smaller" % (K, kv, {str(a): sorted(b) for a, b in rows.items()}))
+    ctx.require(not problems and not bad, "R-C03-6", "table", "the cache update follows the table: new pair -> push; multi-edge -> replace iff the weight comparison holds (whatever the dedupe flag); single-edge -> replace iff KeepLast (%d rows)" % len(table),
+                "the traversal-cache update deviates from the policy table: %s" % "; ".join((problems + bad)[:3]), loc_str(helper.span))
+
+
 def run(ctx):
     prog = ctx.prog
     flows = Flows(prog)
@@ -217,6 +313,10 @@ def run(ctx):
                 if f in (SUCC | PRED | EDGE) and via != "add_node" and not add_edge.dominates(lbb, bb):
                     ok = False
         ctx.require(ok, "R-C03-4", "exists-arg", "`edge_already_exists` comes from the pair lookup made before any adjacency/edge store write", "`edge_already_exists` does not come from a pair lookup that precedes the writes", loc_str(t.span))
+
+    # ------------------------------------------------------------------ R-C03-6 decision table
+    ctx.rule("R-C03-6", "decision table of the adjacency-cache update (path-sensitive predicate abstraction): push iff the pair is new; replace iff (multi ? new<old : KeepLast)")
+    decision_table(ctx, prog, flows, effects, add_edge, helper, hcalls, repl)
 
     # ------------------------------------------------------------------ R-C03-5
     ctx.rule("R-C03-5", "on the multi-edge path the cached weight is replaced only by a smaller one")
